@@ -93,9 +93,11 @@ func checkC18(r *Run) {
 				clearPos = s.Call.Pos()
 			}
 		}
-		for _, b := range db.Blocking {
-			if b.Root == put && b.Callee == "chan<-" {
-				sendPos = b.Node.Pos()
+		// (the send may sit in a private helper that put calls: it then counts at that call)
+		for _, b := range m.blockingIn(put, "chan<-") {
+			sendPos = b.Node.Pos()
+			if len(b.Inl) > 0 {
+				sendPos = b.Inl[0].Call.Pos()
 			}
 		}
 		r.check(okClear && (sendPos == 0 || clearPos < sendPos), "r2", "registry.put clears the payload before caching", put.Decl.Pos(), "SetPayload(nil) for payloaders, before the object enters the cache", "a cached payloader keeps its payload: the next message of that type would see (or alias) the previous message's data")
@@ -106,7 +108,14 @@ func checkC18(r *Run) {
 			continue
 		}
 		if ss, ok := b.Node.(*ast.SendStmt); ok && strings.HasSuffix(norm(ss.Chan), ".cache") {
-			r.check(b.Root.Key == "p9.registry.put", "r2", b.Root.Key+": message enters the cache", ss.Pos(), "only through put", "a message object is put into the cache outside registry.put (without its payload being cleared)")
+			// (a private helper that only registry.put calls acts for it)
+			only := true
+			for _, root := range m.rootsOf(b.Root) {
+				if root.Key != "p9.registry.put" {
+					only = false
+				}
+			}
+			r.check(only, "r2", b.Root.Key+": message enters the cache", ss.Pos(), "only through put", "a message object is put into the cache outside registry.put (without its payload being cleared)")
 		}
 	}
 	if hr := r.mustFunc("r2", "p9", "connState.handleRequest"); hr != nil {
@@ -325,6 +334,75 @@ func checkC18(r *Run) {
 				big, fits := eval(true), eval(false)
 				if big == "make([]byte,"+size+")" && strings.HasSuffix(fits, "[:"+size+"]") {
 					okApp = true
+				}
+				// X is result i of a private helper of recv that is handed the size
+				// (datap, data := getData(size)): the same evaluation inside the helper
+				if !okApp {
+					xobj := objOf(info, kv.Value)
+					ast.Inspect(home.Decl.Body, func(n2 ast.Node) bool {
+						as, isAs := n2.(*ast.AssignStmt)
+						if !isAs || len(as.Rhs) != 1 {
+							return true
+						}
+						call, isCall := unparen(as.Rhs[0]).(*ast.CallExpr)
+						if !isCall || len(call.Args) != 1 || nospace(hres.str(call.Args[0])) != size {
+							return true
+						}
+						tf := r.L.FuncOf(callee(info, call))
+						if tf == nil || tf.Decl.Body == nil || tf.Obj.Exported() || pinnedFuncs[tf.Key] || !m.onlyFor(tf, "p9.recv") {
+							return true
+						}
+						idx := -1
+						for i, l := range as.Lhs {
+							if objOf(info, l) == xobj {
+								idx = i
+							}
+						}
+						var psize types.Object
+						for _, f := range tf.Decl.Type.Params.List {
+							for _, nm := range f.Names {
+								if o := info.Defs[nm]; o != nil && o.Type().String() == "int" {
+									psize = o
+								}
+							}
+						}
+						if idx < 0 || psize == nil {
+							return true
+						}
+						tres := m.resolver(tf)
+						sz := tres.nameOf(psize)
+						nret, okAll := 0, true
+						inspectNoLit(tf.Decl.Body, func(n3 ast.Node) {
+							ret, isRet := n3.(*ast.ReturnStmt)
+							if !isRet {
+								return
+							}
+							nret++
+							if idx >= len(ret.Results) {
+								okAll = false
+								return
+							}
+							ev := func(tooSmall bool) string {
+								v := valueAt(r.L, tres, tf, ret.Results[idx], func(key string) (bool, bool) {
+									if strings.HasPrefix(nospace(key), sz+">len(") {
+										return tooSmall, true
+									}
+									return false, false
+								})
+								if v.undef {
+									return "unassigned"
+								}
+								return nospace(v.s)
+							}
+							if !(ev(true) == "make([]byte,"+sz+")" && strings.HasSuffix(ev(false), "[:"+sz+"]")) {
+								okAll = false
+							}
+						})
+						if nret > 0 && okAll {
+							okApp = true
+						}
+						return true
+					})
 				}
 				return true
 			})
